@@ -7,6 +7,7 @@ pub mod hdr_props;
 pub mod synth_props;
 pub mod cost_props;
 pub mod conc_props;
+pub mod cabi_props;
 
 use crate::runner::{Ctx, KnownFindings, Report};
 
@@ -33,6 +34,7 @@ pub fn registry() -> Vec<(&'static str, CheckFn, ReplayFn)> {
         ("C12", hdr_props::check_c12, hdr_props::replay_c12),
         ("C13", synth_props::check_c13, synth_props::replay_c13),
         ("C14", synth_props::check_c14, synth_props::replay_c14),
+        ("C15", cabi_props::check_c15, cabi_props::replay_c15),
         ("C16", conc_props::check_c16, conc_props::replay_c16),
         ("C17", conc_props::check_c17, conc_props::replay_c17),
         ("C18", cost_props::check_c18, cost_props::replay_c18),
